@@ -22,7 +22,7 @@ ClassOf(k) == CASE k \in IntKinds -> "int" [] k \in UintKinds -> "uint" [] k \in
                 [] k = "string" -> "str" [] k = "bool" -> "bool"
 
 \* where a value can be stored
-FieldPaths == {"field", "field2"}                 \* obj.F, obj.In.F (struct reached through an injected pointer)
+FieldPaths == {"field", "field2", "field2v"}      \* obj.F, obj.In.F (In a pointer), obj.Inv.F (Inv a struct held by value)
 PtrPaths == {"ptr"}                               \* pointer-injected scalar:  p = v
 ContainerPaths == {"mapstr", "mapint", "mapvar", "mapintvar", "slice", "slicevar", "array", "fieldmap", "fieldslice",
                    \* the same containers injected by pointer (&m, &s)
@@ -48,7 +48,7 @@ ArgOutcome(kind, src) ==
   IF tc \in {"str", "bool"} \/ sc \in {"str", "bool"} THEN (IF tc = sc THEN "conv" ELSE "unspecified")
   ELSE "conv"
 
-CallForms == {"func", "method", "three", "func2",      \* func2: a function with two results (the first counts)
+CallForms == {"func", "method", "three", "func2", "funcerr",   \* funcerr: (value, error) with a non-nil error: the first result counts      \* func2: a function with two results (the first counts)
               "vthenp"}     \* a value-receiver method called on a value-injected object and then on a pointer-injected
                             \* object of the same type (whose method set also holds pointer-receiver methods)
 
@@ -66,7 +66,7 @@ ShadowCells == {[what |-> "shadow", path |-> p, kind |-> k, src |-> "int64", out
 \* a read always yields the CURRENT Go value: after the host (or an injected function called by the rule) changed the data
 \* in place or replaced a pointer on the access path, the same rule on the same data context reads the new value
 RereadCells == {[what |-> "reread", path |-> p, kind |-> k, src |-> how, outcome |-> "conv"] :
-                  p \in {"field", "field2", "mapstr", "slice", "array", "pmapstr", "pslice"}, k \in {"int64", "int8", "float64", "string"},
+                  p \in {"field", "field2", "field2v", "mapstr", "slice", "array", "pmapstr", "pslice"}, k \in {"int64", "int8", "float64", "string"},
                   how \in {"value", "pointer", "inrule"}}
 
 \* sanity: every same-kind store is promised
